@@ -18,7 +18,12 @@ def digest(obj):
     h = hashlib.sha256()
 
     def up(o):
-        if isinstance(o, np.ndarray):
+        import dataclasses
+
+        if dataclasses.is_dataclass(o) and not isinstance(o, type):
+            h.update(b"C" + type(o).__name__.encode())
+            up({f.name: getattr(o, f.name) for f in dataclasses.fields(o)})
+        elif isinstance(o, np.ndarray):
             h.update(b"A" + str(o.shape).encode() + str(o.dtype).encode() + np.ascontiguousarray(o).tobytes())
         elif isinstance(o, (list, tuple)):
             h.update(b"L%d" % len(o))
@@ -46,15 +51,62 @@ def case_ref(case):
     return {"v": [], "nt": True, "digest": digest(r), "obs": {"op": case["op"]}}
 
 
+def poison(obj, depth=0):
+    """what a caller may legitimately do with a RETURNED result: overwrite it in place"""
+    import dataclasses
+
+    if depth > 5:
+        return
+    if isinstance(obj, np.ndarray):
+        if obj.flags.writeable and obj.size:
+            try:
+                obj[...] = np.nan if obj.dtype.kind in "fc" else 0
+            except Exception:
+                pass
+    elif isinstance(obj, dict):
+        for k in list(obj):
+            poison(obj[k], depth + 1)
+            if isinstance(obj[k], (int, float, str)) or obj[k] is None:
+                obj[k] = "poisoned-by-caller"
+    elif isinstance(obj, list):
+        for x in obj:
+            poison(x, depth + 1)
+        for k in range(len(obj)):
+            if isinstance(obj[k], (int, float, str)):
+                obj[k] = "poisoned-by-caller"
+    elif isinstance(obj, tuple):
+        for x in obj:
+            poison(x, depth + 1)
+    elif dataclasses.is_dataclass(obj) and not isinstance(obj, type):
+        pass  # configuration objects are inputs, not results
+
+
 def case_hist(case):
+    """mode 'retain': every earlier result is kept alive and must still digest to what it was when it was returned
+    (a later call must not reach into it); mode 'poison': every returned result is overwritten in place by the caller
+    right after it was checked (a later identical call must not hand the same object out again)."""
     mod = importlib.import_module(case["module"])
     v = []
+    kept = []
+    mode = case.get("mode", "retain")
     for k, i in enumerate(case["ops"]):
-        d = digest(mod.hist_op(i))
+        r = mod.hist_op(i)
+        d = digest(r)
         if d != case["refs"][i]:
-            v.append({"sub": "call-history", "sig": "call-history/op%d" % i,
-                      "msg": "call %d of the history %s (op %d = %s) returns something else than the same call in a fresh process" % (k, case["ops"], i, core.canon(mod.HIST_OPS[i])[:300])})
+            v.append({"sub": "call-history", "sig": "call-history/%s/op%d" % (mode, i),
+                      "msg": "call %d of the history %s (op %d = %s; mode %s) returns something else than the same call in a fresh process" % (k, case["ops"], i, core.canon(mod.HIST_OPS[i])[:300], mode)})
             break
+        if mode == "poison":
+            poison(r)
+        else:
+            kept.append((k, i, r, d))
+            for (k0, i0, r0, d0) in kept[:-1]:
+                if digest(r0) != d0:
+                    v.append({"sub": "call-history", "sig": "call-history/earlier-result-changed/op%d" % i0,
+                              "msg": "the result returned by call %d (op %d) of the history %s was changed by call %d (op %d = %s)" % (k0, i0, case["ops"], k, i, core.canon(mod.HIST_OPS[i])[:200])})
+                    break
+            if v:
+                break
     return {"v": v, "nt": len(case["ops"]) > 1, "n": len(case["ops"])}
 
 
@@ -68,10 +120,10 @@ def run(ctx, modname, depth, sub="call-histories", chunk=None):
         if r["v"]:
             raise core.HarnessError("reference op failed: %r" % r["v"])
     rd = [r["digest"] for r in refs]
-    cases = [{"module": modname, "ops": list(h), "refs": rd} for d in range(1, depth + 1) for h in itertools.product(range(n), repeat=d)]
+    cases = [{"module": modname, "ops": list(h), "refs": rd, "mode": mode} for d in range(1, depth + 1) for h in itertools.product(range(n), repeat=d) for mode in (("retain",) if d == 1 else ("retain", "poison"))]
     res = ctx.map(__name__, "case_hist", cases)
     for c, r in zip(cases, res):
-        ctx.add("case_hist", {"module": modname, "ops": c["ops"], "refs": rd}, r, sub)
+        ctx.add("case_hist", {"module": modname, "ops": c["ops"], "refs": rd, "mode": c["mode"]}, r, sub)
     ctx.cov["call_history_ops"] = n
     ctx.cov["call_history_depth"] = depth
     ctx.cov["call_histories_run"] = len(cases)
